@@ -2,6 +2,8 @@
 package redis
 
 import (
+	"time"
+
 	"github.com/samaritan-proxy/samaritan/host"
 	"github.com/samaritan-proxy/samaritan/pb/config/service"
 	"github.com/samaritan-proxy/samaritan/proc"
@@ -24,6 +26,11 @@ func vfDone(ch chan struct{}) bool {
 	}
 }
 
+func vfConfig() *config {
+	d := 100 * time.Millisecond
+	return newConfig(&service.Config{ConnectTimeout: &d})
+}
+
 func vfFakeClient() *client {
 	return &client{
 		pendingReqs:    make(chan *simpleRequest, 16),
@@ -40,7 +47,7 @@ func vfNewUpstream(cfg *config, addrs ...string) (*upstream, map[string]*client)
 	}
 	scope := stats.CreateScope("vf.")
 	if cfg == nil {
-		cfg = newConfig(&service.Config{})
+		cfg = vfConfig()
 	}
 	u := newUpstream(cfg, hosts, log.New("vf"), proc.NewUpstreamStats(scope))
 	clients := map[string]*client{}
@@ -76,7 +83,7 @@ func vfBytesEq(a, b []byte) bool {
 // vfNewProc builds a redisProc around an upstream with fake clients (no listener, no goroutines).
 func vfNewProc(cfg *config, addrs ...string) (*redisProc, map[string]*client) {
 	if cfg == nil {
-		cfg = newConfig(&service.Config{})
+		cfg = vfConfig()
 	}
 	scope := stats.CreateScope("vf.")
 	p := &redisProc{
